@@ -33,29 +33,33 @@ PROPS = {
     "C01": {
         "lean": ["FsnVerif.Props.C01"],
         "lean_support": ["FsnVerif.Proofs.DecodeLemmas", "FsnVerif.Proofs.InotifyLemmas", "FsnVerif.Model.Inotify", "FsnVerif.Model.Decode"],
-        "stages": [{"name": "inject", "cmd": "inject", "what": "C01", "sessions": True}],
-        "rule": INJECT_RULE,
+        "stages": [{"name": "inject", "cmd": "inject", "what": "C01", "sessions": True},
+                   {"name": "live", "cmd": "live", "what": "C01", "sessions": True}],
+        "rule": INJECT_RULE + LIVE_RULE,
         "assumptions": ["kernel raises a record for every change (K-live) and delivers them FIFO (K2): validated by tee/live monitors, not proved",
                         "Go channel semantics behind sendEvent (modelled in Model/Proto)"],
     },
     "C02": {
         "lean": ["FsnVerif.Props.C02"],
         "lean_support": ["FsnVerif.Proofs.InotifyLemmas", "FsnVerif.Proofs.ALLemmas", "FsnVerif.Model.Inotify"],
-        "stages": [{"name": "inject", "cmd": "inject", "what": "C02", "sessions": True}],
-        "rule": INJECT_RULE,
+        "stages": [{"name": "inject", "cmd": "inject", "what": "C02", "sessions": True},
+                   {"name": "live", "cmd": "live", "what": "C02", "sessions": True}],
+        "rule": INJECT_RULE + LIVE_RULE,
         "assumptions": ["K1 (a wd is not reissued while stale records for it are queued), K2/K3 (nothing but IN_IGNORED after rm_watch)"],
     },
     "C03": {
         "lean": ["FsnVerif.Props.C03"],
         "lean_support": ["FsnVerif.Proofs.InotifyLemmas", "FsnVerif.Proofs.RingLemmas", "FsnVerif.Model.Inotify"],
-        "stages": [{"name": "inject", "cmd": "inject", "what": "C03", "sessions": True}],
-        "rule": INJECT_RULE,
+        "stages": [{"name": "inject", "cmd": "inject", "what": "C03", "sessions": True},
+                   {"name": "live", "cmd": "live", "what": "C03", "sessions": True}],
+        "rule": INJECT_RULE + LIVE_RULE,
         "assumptions": ["kernel queue order (K2); Go channel FIFO (language specification)"],
     },
     "C08": {
         "lean": ["FsnVerif.Props.C08"],
         "lean_support": ["FsnVerif.Proofs.InotifyLemmas", "FsnVerif.Proofs.ALLemmas", "FsnVerif.Proofs.DecodeLemmas", "FsnVerif.Model.Path"],
         "stages": [{"name": "inject", "cmd": "inject", "what": "C08", "sessions": True},
+                   {"name": "live", "cmd": "live", "what": "C08", "sessions": True},
                    {"name": "path", "cmd": "pure", "what": "path"}],
         "rule": INJECT_RULE + "; filepath.Clean/Dir/Base/recursivePath vs the Lean model exhaustively over {a . /}^<=7 (9 thorough) and random wide paths",
         "assumptions": ["filepath.Clean/Dir/Base are standard library: modelled in Lean and validated differentially, not proved"],
@@ -63,8 +67,9 @@ PROPS = {
     "C11": {
         "lean": ["FsnVerif.Props.C11"],
         "lean_support": ["FsnVerif.Proofs.RingLemmas", "FsnVerif.Proofs.InotifyLemmas", "FsnVerif.Model.Inotify"],
-        "stages": [{"name": "inject", "cmd": "inject", "what": "C11", "sessions": True}],
-        "rule": INJECT_RULE,
+        "stages": [{"name": "inject", "cmd": "inject", "what": "C11", "sessions": True},
+                   {"name": "live", "cmd": "live", "what": "C11", "sessions": True}],
+        "rule": INJECT_RULE + LIVE_RULE,
         "assumptions": ["K5: rename cookies are non-zero and pairwise distinct within any window of 2^32 renames"],
     },
     "C04": {
@@ -191,7 +196,9 @@ def differs(pid, impl, model):
     if pid == "C10":
         return fi.get("X", "") != fm.get("X", "")
     if pid in ("C04", "C09"):
-        return (fi.get("R"), fi.get("L"), fi.get("P")) != (fm.get("R"), fm.get("L"), fm.get("P"))
+        def rc(x):   # the property fixes only nil / ErrNonExistentWatch / ErrClosed / no panic; other errors are "an error"
+            return x if x in ("nil", "ErrNonExistentWatch", "ErrClosed", "PANIC", None) else "error"
+        return (rc(fi.get("R")), fi.get("L"), fi.get("P")) != (rc(fm.get("R")), fm.get("L"), fm.get("P"))
     if pid == "C12":
         return (fi.get("W"), fi.get("P")) != (fm.get("W"), fm.get("P"))
     return impl != model
